@@ -3,7 +3,7 @@ From Coq Require Import Permutation.
 From PGV Require Import Base.Bytes Base.GoStr Regex.Re Regex.Rx.
 From PGV Require Import Extracted.SourceRegex.
 From PGV Require Import Spec.InjectSpec Model.Inject.
-Open Scope N_scope.
+Local Open Scope N_scope.
 
 (* ================= generic list / byte facts ================= *)
 
@@ -291,6 +291,10 @@ Qed.
 (* C06_merge *)
 Theorem override_meets_spec old inj : NoDup (keys old) -> NoDup (keys inj) -> merge_spec old inj (override old inj).
 Proof. intros Ho Hi. rewrite (override_merge old inj Ho Hi). now apply merge_meets_spec. Qed.
+
+Theorem merge_spec_override_unique old inj r : NoDup (keys old) -> NoDup (keys inj) ->
+  merge_spec old inj r -> r = override old inj.
+Proof. intros Ho Hi H. rewrite (override_merge old inj Ho Hi). now apply merge_spec_unique. Qed.
 
 (* the merge only looks at keys: it commutes with quoting the values *)
 Lemma keys_quote l : keys (map quote_item l) = keys l.
